@@ -28,7 +28,17 @@ def check(m, run):
     from .. import ops_common as oc
     oc.optional_coordinate_rule(m, run)
     c17.ag5(m, run)
-    vx1(m, run)
+    # the voxel grid is decided by exact interpretation on boxes of three different extents (VX2); the rules that read the comprehension
+    # indices and the order of the step assignments corroborate
+    from .. import skel_drivers as _sdv
+    n_vx = len(run.obs)
+    try:
+        _sdv.vx2(m, run)
+    except AnalysisError as ex:
+        run.error(str(ex))
+    vx_ok = len(run.obs) > n_vx and all(o.ok for o in run.obs[n_vx:])
+    with run.corroborating(vx_ok, 'VX2', rules=('VX1.voxel-grid',)):
+        vx1(m, run)
     c16.check_is_left(m, run, 'AL3.is-left')
     from .. import skel_drivers as _sd
     n0 = len(run.obs)
